@@ -1,25 +1,42 @@
 import CTV.Props.C04
-/-! C04 — the wiring of the serialization wrappers, pinned to the source text regenerated on every run (moved out of C04.lean). -/
+/-! C04 — the wiring of the serialization wrappers, tied to the source on every run.
+
+The facts are regenerated from the *canonical view* of each function (extract/canon.go, units in extract/k_cttypes.go):
+parameters are named by their type (`$SignedCertificateTimestamp`, `$LogEntry`, `$[]byte` …), locals that only hoist a read are
+substituted back, same-file helpers and local closures are inlined, branch conditions are normalised.  Renaming, hoisting,
+extracting a helper, or turning a `switch` into early returns leaves them unchanged; taking a signed field from another
+place, marshalling another structure, parsing another buffer or choosing the extra-data form on another condition does not. -/
 namespace C04
 open Tls CTV CtWire
 
-/-- **The wiring of the wrappers, as the hand models assume it, regenerated from the source on every run**: which struct literal
-`SerializeSCTSignatureInput` / `SerializeSTHSignatureInput` marshal and where each field comes from (the SCT's version,
-timestamp and *extensions*; the entry's type and body), that `LeafHashForLeaf` hashes `TreeLeafPrefix ‖ tls.Marshal(*leaf)`,
-which three `tls.Unmarshal` calls `RawLogEntryFromLeaf` makes, what `ExtraDataForChain` marshals and that `buildLogLeaf` chooses
-it exactly when no chain hash is given. -/
+/-- **What the hand models of serialization.go / log_leaf.go assume about the code, regenerated on every run.**
+
+* `SerializeSCTSignatureInput` marshals a `CertificateTimestamp` whose version, timestamp and **extensions** come from the SCT
+  argument, whose entry type and body come from the entry's `Leaf.TimestampedEntry`, with the constant signature type;
+* `SerializeSTHSignatureInput` marshals a `TreeHeadSignature` built from the STH argument with the constant `TreeHashSignatureType`;
+* `LeafHashForLeaf` hashes `TreeLeafPrefix ‖ tls.Marshal(*leaf)`;
+* `RawLogEntryFromLeaf` parses `LeafInput` into the leaf, and `ExtraData` into a `CertificateChain` resp. a `PrecertChainEntry`;
+* `ExtraDataForChain` builds `PrecertChainEntry{cert, chain}` exactly when `isPrecert`, else `CertificateChain{chain}`;
+* `buildLogLeaf` takes `ExtraDataForChain` exactly when `chainHash == nil`, else `ExtraDataForChainHash`. -/
 theorem wrappers_as_modelled :
-    Gen.sctInputAssign = ["input := CertificateTimestamp{ SCTVersion: sct.SCTVersion, SignatureType: CertificateTimestampSignatureType, Timestamp: sct.Timestamp, EntryType: entry.Leaf.TimestampedEntry.EntryType, Extensions: sct.Extensions, }"] ∧
-    Gen.sctInputX509Assign = ["input.X509Entry = entry.Leaf.TimestampedEntry.X509Entry"] ∧
-    Gen.sctInputPrecertAssign = ["input.PrecertEntry = &PreCert{ IssuerKeyHash: entry.Leaf.TimestampedEntry.PrecertEntry.IssuerKeyHash, TBSCertificate: entry.Leaf.TimestampedEntry.PrecertEntry.TBSCertificate, }"] ∧
-    Gen.sctInputMarshal = ["tls.Marshal(input)"] ∧
-    Gen.sthInputAssign = ["input := TreeHeadSignature{ Version: sth.Version, SignatureType: TreeHashSignatureType, Timestamp: sth.Timestamp, TreeSize: sth.TreeSize, SHA256RootHash: sth.SHA256RootHash, }"] ∧
-    Gen.sthInputMarshal = ["tls.Marshal(input)"] ∧
-    Gen.leafHashMarshal = ["tls.Marshal(*leaf)"] ∧ Gen.leafHashData = ["data := append([]byte{TreeLeafPrefix}, leafData...)"] ∧
-    Gen.leafHashSum = ["sha256.Sum256(data)"] ∧
-    Gen.rawLogEntryUnmarshal = ["tls.Unmarshal(entry.LeafInput, &ret.Leaf)", "tls.Unmarshal(entry.ExtraData, &certChain)", "tls.Unmarshal(entry.ExtraData, &precertChain)"] ∧
-    Gen.extraDataAssign = ["extra = ct.PrecertChainEntry{ PreCertificate: cert, CertificateChain: chain, }", "extra = ct.CertificateChain{Entries: chain}"] ∧
-    Gen.buildLogLeafChoice = "chainHash == nil" := by
+    Gen.sctInputFields = [("EntryType", "$LogEntry.Leaf.TimestampedEntry.EntryType"), ("Extensions", "$SignedCertificateTimestamp.Extensions"),
+      ("SCTVersion", "$SignedCertificateTimestamp.SCTVersion"), ("SignatureType", "CertificateTimestampSignatureType"),
+      ("Timestamp", "$SignedCertificateTimestamp.Timestamp")] ∧
+    Gen.sctInputX509 = ["$LogEntry.Leaf.TimestampedEntry.X509Entry"] ∧
+    Gen.sctInputPreTarget = ["PreCert"] ∧
+    Gen.sctInputPreFields = [("IssuerKeyHash", "$LogEntry.Leaf.TimestampedEntry.PrecertEntry.IssuerKeyHash"),
+      ("TBSCertificate", "$LogEntry.Leaf.TimestampedEntry.PrecertEntry.TBSCertificate")] ∧
+    Gen.sctInputMarshalled = ["CertificateTimestamp"] ∧
+    Gen.sthInputFields = [("SHA256RootHash", "$SignedTreeHead.SHA256RootHash"), ("SignatureType", "TreeHashSignatureType"),
+      ("Timestamp", "$SignedTreeHead.Timestamp"), ("TreeSize", "$SignedTreeHead.TreeSize"), ("Version", "$SignedTreeHead.Version")] ∧
+    Gen.sthInputMarshalled = ["TreeHeadSignature"] ∧
+    Gen.leafHashMarshal = ["*$*MerkleTreeLeaf"] ∧ Gen.leafHashPrefix = ["TreeLeafPrefix"] ∧ Gen.leafHashSum = ["$append"] ∧
+    Gen.rawLogEntryUnmarshal = ["$*LeafEntry.LeafInput,&$var(RawLogEntry{Index:$int64}).Leaf",
+      "$*LeafEntry.ExtraData,&$decl(CertificateChain)", "$*LeafEntry.ExtraData,&$decl(PrecertChainEntry)"] ∧
+    Gen.extraDataPrecertFields = [("CertificateChain", "$[]ct.ASN1Cert"), ("PreCertificate", "$ct.ASN1Cert")] ∧
+    Gen.extraDataChainFields = [("Entries", "$[]ct.ASN1Cert")] ∧
+    Gen.extraDataPrecertWhen = ["$bool"] ∧ Gen.extraDataChainWhen = ["!$bool"] ∧
+    Gen.buildLogLeafChainWhen = ["$[]byte==nil"] ∧ Gen.buildLogLeafHashWhen = ["$[]byte!=nil"] := by
   decide +kernel
 
 end C04
